@@ -76,9 +76,21 @@ def run(tier: str, budget: Budget, rnd, prop: str) -> StreamResult:
                              "compute", "compute", "compute", "undo"])
             try:
                 if op == "setknown":
-                    K = G.knowledge_random(n, rnd)
-                    rnd.shuffle(K)
-                    g.set_known_values([float(v[k]) for k in K], [Coalition(k) for k in K])
+                    lst = o.get("shared")
+                    if lst is not None and rnd.random() < 0.5:
+                        # the caller keeps ONE list object, edits it in place (same length) and passes it again: what counts is
+                        # what the list holds now, not which object it is
+                        idxs = [i_ for i_, c_ in enumerate(lst) if c_.id not in mn]
+                        others = [c_ for c_ in range(N) if c_ not in {x_.id for x_ in lst}]
+                        if idxs and others:
+                            lst[rnd.choice(idxs)] = Coalition(rnd.choice(others))
+                        K = [c_.id for c_ in lst]
+                        res.count("setknown:same-list-object-edited-in-place")
+                    else:
+                        K = G.knowledge_random(n, rnd)
+                        rnd.shuffle(K)
+                        lst = o["shared"] = [Coalition(k) for k in K]
+                    g.set_known_values([float(v[k]) for k in K], lst)
                     ln = f"tab setknown {name} {nlist(K)} {rlist([v[k] for k in K])}"
                     o["K"] = set(K) | {0}
                 elif op == "setvalues":
